@@ -8,7 +8,7 @@ import subprocess
 import threading
 
 from .. import common, gen, lin, probe
-from ..sched import LateHandles, Recorder, Sched
+from ..sched import LateHandles, Recorder, Sched, store_gates
 
 PROP = 'C20'
 LEVEL = 'exploration'
@@ -61,6 +61,8 @@ def averager_schedule(dc, sc, res, rng, label):
         caches = LateHandles(rng, n, lambda: dc.Cache(d, timeout=0, **dkw), shared=base if topo == 'shared' else None)
     sch = Sched(rng, clock, strategy=rng.choice(['random', 'preempt', 'random', 'ops']),
                 preempt_points={rng.randrange(0, 150) for _ in range(3)})
+    if store_gates(sch, rng, dc):
+        res.count('schedules_with_attribute_store_gates')
     rec = Recorder(sch)
     ave_key = rng.choice(['latency', 'latency', '', 0] + ([] if json_disk else [('avg', 1)]))   # the tally lives under any cache key
 
@@ -221,6 +223,8 @@ def throttle_run(dc, sc, res, rng, label):
     caches = [cache if rng.random() < 0.5 else dc.Cache(d, timeout=0, **dkw) for _ in range(ncallers)]
     sch = Sched(rng, clock, strategy=rng.choice(['random', 'preempt', 'random', 'ops']), max_steps=40000,
                 preempt_points={rng.randrange(0, 200) for _ in range(3)})
+    if store_gates(sch, rng, dc):
+        res.count('schedules_with_attribute_store_gates')
     starts = []          # virtual start times
     arrivals = []
     loops = {}
